@@ -647,7 +647,7 @@ def run_all(chk, inp, tag):
     """-> (obs, results) or None.  results[name] = (corr_bad, prop_bad)"""
     nr_in = {
         "nego": [{"reply": render_reply(c, i), "agent": [None if x is None else str(x) for x in c["agent"]],
-                  "e2e": bool(c.get("e2e"))} for i, c in enumerate(inp["nego"])],
+                  "e2e": bool(c.get("e2e")), "again": (chk.tier == "quick" or i % 4 == 0)} for i, c in enumerate(inp["nego"])],
         "res": [{"kind": r["kind"], "k": r["k"], "ops": r["ops"], "split": r["split"]} for r in inp["res"]],
         "tables": [{"max": t["max"], "stages": t["stages"]} for t in inp["tables"]],
         "harvests": [{k: h[k] for k in ("caps", "events", "metrics", "errors", "slows", "traces")} for h in inp["harvests"]],
